@@ -42,9 +42,51 @@ Definition filter_infix (off : Z) (flt : infix_filter) (infix : bytes) : bool :=
   | IFNone => false
   end.
 
-(* read_dir_related_files: regular files whose name starts with the fixed part, descending *)
-Definition related_files (f : fs) (fixed : bytes) : list bytes :=
-  rev (sort_names (filter (fun n => is_reg_file f n && is_prefix fixed n) (dir_names f))).
+Definition gz_sfx : bytes := [103; 122].                              (* "gz" *)
+
+(* the sort key of read_dir_related_files: the name without ".gz", suffix and restart counter, then the restart
+   counter - numerically, a name without counter first -, then the name itself *)
+Definition restart_tag : bytes := [46; 114; 101; 115; 116; 97; 114; 116; 45].   (* ".restart-" *)
+Fixpoint drop_zeros (s : bytes) : bytes := match s with 48 :: r => drop_zeros r | _ => s end.
+Definition sort_key (sfx : option bytes) (n : bytes) : bytes * option (nat * bytes) :=
+  let s1 := match strip_suffix (dot :: gz_sfx) n with Some s => s | None => n end in
+  let stem := match sfx with
+              | Some x => match strip_suffix (dot :: x) s1 with Some s => s | None => s1 end
+              | None => s1
+              end in
+  match find_sub restart_tag stem with
+  | Some ix => let digits := skipn (ix + 9) stem in
+               if negb (beq digits []) && forallb is_digit digits
+               then let d := drop_zeros digits in (firstn ix stem, Some (length d, d))
+               else (stem, None)
+  | None => (stem, None)
+  end.
+Definition rkey_le (a b : option (nat * bytes)) : bool :=
+  match a, b with
+  | None, _ => true
+  | Some _, None => false
+  | Some (la, da), Some (lb, db) => if Nat.eqb la lb then lex_le da db else Nat.ltb la lb
+  end.
+Definition rkey_eq (a b : option (nat * bytes)) : bool :=
+  match a, b with
+  | None, None => true
+  | Some (la, da), Some (lb, db) => Nat.eqb la lb && beq da db
+  | _, _ => false
+  end.
+Definition key_le (sfx : option bytes) (x y : bytes) : bool :=
+  let '(mx, rx) := sort_key sfx x in
+  let '(my, ry) := sort_key sfx y in
+  if beq mx my then (if rkey_eq rx ry then lex_le x y else rkey_le rx ry) else lex_le mx my.
+Fixpoint insert_by (le : bytes -> bytes -> bool) (x : bytes) (l : list bytes) : list bytes :=
+  match l with
+  | [] => [x]
+  | y :: r => if le x y then x :: l else y :: insert_by le x r
+  end.
+Definition sort_by_key (sfx : option bytes) (l : list bytes) : list bytes := fold_right (insert_by (key_le sfx)) [] l.
+
+(* read_dir_related_files: regular files whose name starts with the fixed part, newest first *)
+Definition related_files (f : fs) (sfx : option bytes) (fixed : bytes) : list bytes :=
+  rev (sort_by_key sfx (filter (fun n => is_reg_file f n && is_prefix fixed n) (dir_names f))).
 
 Fixpoint filter_opt {A} (p : A -> option bool) (l : list A) : option (list A) :=
   match l with
@@ -102,7 +144,6 @@ Definition filter_files (off : Z) (sp_sfx : option bytes) (fixed : bytes) (files
 Record selector := { sel_plain : bool; sel_gz : bool; sel_rcur : bool; sel_custom : option bytes }.
 
 Definition cur_infix : bytes := [114; 67; 85; 82; 82; 69; 78; 84].   (* "rCURRENT" *)
-Definition gz_sfx : bytes := [103; 122].                              (* "gz" *)
 
 Definition app_opt {A} (a b : option (list A)) : option (list A) :=
   match a, b with Some x, Some y => Some (x ++ y) | _, _ => None end.
@@ -110,7 +151,7 @@ Definition app_opt {A} (a b : option (list A)) : option (list A) :=
 (* existing_log_files with rotation *)
 Definition existing_rot (off : Z) (sp : file_spec) (fixed : bytes) (f : fs) (flt : infix_filter) (sel : selector)
   : option (list bytes) :=
-  let rel := related_files f fixed in
+  let rel := related_files f (fsfx sp) fixed in
   let r1 := if sel_plain sel then filter_files off (fsfx sp) fixed rel flt (fsfx sp) else Some [] in
   let r2 := if sel_gz sel then filter_files off (fsfx sp) fixed rel flt (Some gz_sfx) else Some [] in
   let r3 := if sel_rcur sel then filter_files off (fsfx sp) fixed rel (IFEq cur_infix) (fsfx sp) else Some [] in
@@ -161,12 +202,28 @@ Definition get_highest_index (off : Z) (sp : file_spec) (fixed : bytes) (f : fs)
   end.
 
 (* collision_free_infix_for_rotated_file *)
-Definition restart_tag : bytes := [46; 114; 101; 115; 116; 97; 114; 116; 45].   (* ".restart-" *)
-
 Definition strip_gz (n : bytes) : bytes := if ext_is n gz_sfx then set_extension n [] else n.
 
-Definition collision_free_infix (off : Z) (sp : file_spec) (fixed : bytes) (f : fs) (infix : bytes) : option bytes :=
-  let rel := related_files f fixed in
+(* the restart number in a file name: all digits that follow the first ".restart-", as u64 *)
+Fixpoint take_digits (s : bytes) : bytes :=
+  match s with
+  | c :: r => if is_digit c then c :: take_digits r else []
+  | [] => []
+  end.
+Definition restart_number (n : bytes) : option N :=
+  match find_sub restart_tag n with
+  | None => None
+  | Some ix => parse_uint usize_max (take_digits (skipn (ix + 9) n))
+  end.
+Fixpoint filter_map_opt {A B} (g : A -> option B) (l : list A) : list B :=
+  match l with
+  | [] => []
+  | x :: r => match g x with Some y => y :: filter_map_opt g r | None => filter_map_opt g r end
+  end.
+
+(* outer None: panic; inner None: the error "restart numbers are exhausted" *)
+Definition collision_free_infix (off : Z) (sp : file_spec) (fixed : bytes) (f : fs) (infix : bytes) : option (option bytes) :=
+  let rel := related_files f (fsfx sp) fixed in
   match filter_files off (fsfx sp) fixed rel (IFEq infix) (fsfx sp), filter_files off (fsfx sp) fixed rel (IFEq infix) (Some gz_sfx) with
   | Some unc, Some cmp =>
     let sibs := filter (fun n => contains restart_tag n)
@@ -177,27 +234,11 @@ Definition collision_free_infix (off : Z) (sp : file_spec) (fixed : bytes) (f : 
     let new_gz := set_extension new_name (match fsfx sp with Some s => s | None => [] end ++ dot :: gz_sfx) in
     let exists_ n := match lookup f n with Some _ => true | None => false end in
     if exists_ new_name || exists_ new_gz || match sibs with [] => false | _ => true end then
-      match sibs with
-      | [] => Some (infix ++ restart_tag ++ pad_left 4 48 (dec 0))
-      | _ =>
-        match rev (sort_names sibs) with
-        | [] => None
-        | top :: _ =>
-          let stem := match fsfx sp with Some _ => file_stem top | None => top end in
-          match find_sub restart_tag stem with
-          | None => None
-          | Some ix =>
-            match str_slice stem (ix + 9) (ix + 13) with
-            | None => None
-            | Some digits => match parse_uint usize_max digits with
-                             | None => None
-                             | Some k => Some (infix ++ restart_tag ++ pad_left 4 48 (dec (k + 1)))
-                             end
-            end
-          end
-        end
+      match max_opt (filter_map_opt restart_number sibs) with
+      | None => Some (Some (infix ++ restart_tag ++ pad_left 4 48 (dec 0)))
+      | Some k => if k <? usize_max then Some (Some (infix ++ restart_tag ++ pad_left 4 48 (dec (k + 1)))) else Some None
       end
-    else Some infix
+    else Some (Some infix)
   | _, _ => None
   end.
 
